@@ -32,10 +32,12 @@ type c18Case struct {
 	salt   int
 	nser   int
 	twin   bool // also build a second ring from the identical list
+	// afterOverride: the ring under test is listed after a hashring that overrides the algorithm (see ringBuild)
+	afterOverride bool
 }
 
 func (c c18Case) String() string {
-	return fmt.Sprintf("alg=%s rf=%d tenant=%q salt=%d eps=[%s] perm=[%s]", c.alg, c.rf, c.tenant, c.salt, ringRenderEndpoints(c.eps), ringRenderEndpoints(c.perm))
+	return fmt.Sprintf("alg=%s rf=%d tenant=%q salt=%d afterOverride=%v eps=[%s] perm=[%s]", c.alg, c.rf, c.tenant, c.salt, c.afterOverride, ringRenderEndpoints(c.eps), ringRenderEndpoints(c.perm))
 }
 
 func c18SameOrder(a, b []receive.Endpoint) bool {
@@ -56,18 +58,18 @@ func c18Check(c c18Case) (string, bool, []string) {
 	for _, e := range c.eps {
 		configured[e] = true
 	}
-	a, err := ringBuild(c.alg, uint64(c.rf), c.eps)
+	a, err := ringBuild(c.alg, uint64(c.rf), c.eps, c.afterOverride)
 	if err != nil {
 		return "building the ring failed: " + err.Error(), false, nil
 	}
-	p, err := ringBuild(c.alg, uint64(c.rf), c.perm)
+	p, err := ringBuild(c.alg, uint64(c.rf), c.perm, c.afterOverride)
 	if err != nil {
 		return "building the ring from the permuted list failed: " + err.Error(), false, nil
 	}
 	rings := []receive.Hashring{p}
 	names := []string{"ring built from the permuted endpoint list"}
 	if c.twin {
-		b, err := ringBuild(c.alg, uint64(c.rf), c.eps)
+		b, err := ringBuild(c.alg, uint64(c.rf), c.eps, c.afterOverride)
 		if err != nil {
 			return "building the ring a second time failed: " + err.Error(), false, nil
 		}
@@ -205,6 +207,7 @@ func c18Gen(rt *rapid.T) (c18Case, []string) {
 	c.tenant = genTenant(rt)
 	c.perm = rapid.Permutation(eps).Draw(rt, "perm")
 	c.twin = rapid.IntRange(0, 2).Draw(rt, "twin") == 0
+	c.afterOverride = rapid.IntRange(0, 3).Draw(rt, "afterAlgorithmOverride") == 0
 	return c, classes
 }
 
